@@ -270,12 +270,59 @@ pub fn index_vector(vector_shared: &VecH, idx: usize, heap: &Heap, stack: &mut V
     Ok(())
 }}
 """)
+    # vec_op `+R`: the append a list literal performs for each element
+    from vlib.extract import find_block_after
+    try:
+        _, o2, c2 = find_block_after(fv["body"], "if let [ b'+' , .. ] = bytes")
+    except Exception as e:
+        raise Undecided(f"instruction.rs: `if let [b'+', ..] = bytes` branch of vec_op not found: {e}")
+    bp = cells_pass(fv["body"][o2 + 1:c2], log, "vec_op[+]")
+    bp = translate(bp, [Rule("R3", "bail ! $a", "return Err ( VErr )", why="bail! -> return Err"),
+                        Rule("R3", ". context ( $m ) ?", "?", why="context text dropped"),
+                        Rule("R6", "ctx . pop ( ) . unwrap ( ) . move_out_of_heap_primitive ( ) ?", "move_out ( stack_pop ( stack ) ) ?", why="operand stack as an explicit vector; heap-pointer view abstract"),
+                        Rule("R13", "ctx . pop ( ) . unwrap ( )", "stack_pop ( stack )", why="operand stack as an explicit vector (R8: non-empty)"),
+                        Rule("R13", "ctx . stack_size ( )", "stack . len ( )", why="operand stack as an explicit vector"),
+                        Rule("R6", "let primitive_with_flags : PrimitiveFlagsPair = ctx . load_local ( & op_name [ 1 .. ] ) ?", "let primitive_with_flags = load_local ( locals , op_name ) ?", why="frame lookup abstract (the register named after the `+`)"),
+                        Rule("R1", "let Primitive :: Vector ( ref vector ) = & * primitive_with_flags . primitive ( ) else", "let Primitive :: Vector ( vector ) = pair_value ( & primitive_with_flags ) else", why="deref of the variable cell"),
+                        ], log, "vec_op[+]")
+    check_closed(bp, "vec_op[+]")
+    fns.append(f"""
+// heap pointers: move_out_of_heap_primitive yields the pointee's VALUE (identity on plain values)
+pub uninterp spec fn moved_out(p: Primitive) -> Option<Primitive>;
+#[verifier::external_body] pub fn move_out(p: Primitive) -> (r: Result<Primitive, VErr>)
+    ensures moved_out(p) is Some ==> r == Ok::<Primitive, VErr>(moved_out(p)->Some_0), moved_out(p) is None ==> r is Err {{ unimplemented!() }}
+pub fn stack_pop(s: &mut Vec<Primitive>) -> (r: Primitive) requires old(s)@.len() > 0 ensures r == old(s)@.last(), final(s)@ == old(s)@.drop_last() {{ s.pop().unwrap() }}
+#[verifier::external_body] pub struct Locals {{ x: usize }}
+#[verifier::external_body] pub struct Pair {{ x: usize }}
+#[verifier::external_body] pub struct OpName {{ x: usize }}
+pub uninterp spec fn local_value(l: &Locals, n: &OpName) -> Option<Primitive>;       // value of the local named by op_name[1..]
+#[verifier::external_body] pub fn load_local(l: &Locals, n: &OpName) -> (r: Result<Pair, VErr>) ensures r is Ok <==> local_value(l, n) is Some, r is Ok ==> pair_val(&r->Ok_0) == local_value(l, n)->Some_0 {{ unimplemented!() }}
+pub uninterp spec fn pair_val(p: &Pair) -> Primitive;
+#[verifier::external_body] pub fn pair_value(p: &Pair) -> (r: &Primitive) ensures *r == pair_val(p) {{ unimplemented!() }}
+
+//@ OBL C15.vec_op.push-value
+// vec_op `+R` (one per element of a list literal): the element's VALUE is appended to the list in register R.  A value read through an
+// element / field pointer (`[a[0], f()]`) is copied out here, so evaluating later elements cannot change it any more
+pub fn vec_op_push(stack: &mut Vec<Primitive>, locals: &Locals, op_name: &OpName, heap: &mut Heap) -> (r: Result<(), VErr>)
+    requires local_value(locals, op_name) matches Some(Primitive::Vector(v)) ==> live(old(heap), &v)
+    ensures
+        r is Ok ==> old(stack)@.len() == 1 && moved_out(old(stack)@[0]) is Some && local_value(locals, op_name) is Some && local_value(locals, op_name)->Some_0 is Vector
+            && ({{ let id = vid(&local_value(locals, op_name)->Some_0->Vector_0);
+                  vecs(final(heap)) == vecs(old(heap)).insert(id, vecs(old(heap))[id].push(moved_out(old(stack)@[0])->Some_0)) }})
+            && final(stack)@.len() == 0,
+        r is Err ==> vecs(final(heap)) == vecs(old(heap)),
+{{
+{render(bp, 1)}
+    Ok(())
+}}
+""")
+    obls.append(Obl("C15.vec_op.push-value", ["C15", "C13"], fn="vec_op_push", desc="vec_op `+R`: the element's value (copied out of any element / field pointer) is appended to the list in register R"))
     obls.append(Obl("C13.index.vector", ["C13", "C17", "C01"], fn="index_vector", desc="list index read/assignment target: out-of-range index -> failure, no value; in range -> pointer to exactly that slot"))
     gen = header(log, f"{FUNC}: BuiltInFunction::run arms " + ", ".join(ARMS) + f"; {PRIM}: Primitive::equals (list arm); instruction.rs: vec_op (list index arm)") + SPEC + "\n".join(fns) + "\n} // verus!\nfn main() {}\n"
     return gen, obls, log
 
 
-UNITS = [VUnit("c13_lists", ["C13", "C17"], "list methods vs the sequence model, with sharing as an explicit heap", build)]
+UNITS = [VUnit("c13_lists", ["C13", "C17", "C15"], "list methods vs the sequence model, with sharing as an explicit heap", build)]
 UNITS[0].assumes = ["gc / RefCell semantics assumed: a list handle denotes a heap cell; clones alias it; GcVector::new allocates a cell no handle points to; std::vec::Vec operations have their documented meaning",
                     "the argument vector has the shape the compiler's typing guarantees (receiver is a list, argument kinds) -- preconditions",
                     "element equality (Primitive::equals) is an uninterpreted relation here",
